@@ -208,11 +208,14 @@ EXPORT errno_t _wcsrtombs_s_chk(size_t *restrict retvalp, char *restrict dest,
     l = *retvalp = wcsrtombs(dest, srcp, len, ps);
 
     if (likely(l < dmax)) { /* an empty src converts to an empty dest */
-#ifdef SAFECLIB_STR_NULL_SLACK
         if (dest) {
+#ifdef SAFECLIB_STR_NULL_SLACK
             memset(&dest[l], 0, dmax - l);
-        }
+#else
+            /* wcsrtombs only stores the terminator when len leaves room */
+            dest[l] = '\0';
 #endif
+        }
         rc = EOK;
     } else {
         /* (size_t)-1: libc met an illegal wide character, else no space */
